@@ -102,14 +102,15 @@ func (this *Server) setup() error {
 		return err
 	}
 
-	if err := this.zeroGroup.Start(); err != nil {
-		return err
-	}
-
 	this.nodesManager = raft.NewNodesManager(this.clusterConn, this.zeroGroup)
 
 	this.datasetManager, err = storage.NewDatasetManager(sharedGroup.Get("datasets"), this.db, raftTransport, this.clusterConn, this.allocator)
 	if err != nil {
+		return err
+	}
+
+	// Start replaying the log only after its consumers are registered
+	if err := this.zeroGroup.Start(); err != nil {
 		return err
 	}
 
